@@ -117,6 +117,43 @@ theorem scan_ok {y : List Rat} (hn : 2 ≤ y.length) : ScanOK y y.length (scan y
   · exact ⟨by simp; omega, by simp; omega, by intro j hj; omega⟩
   · exact ⟨by simp; omega, by simp; omega, by intro j hj; omega⟩
 
+/-- the scan also finds a highest vertex: no value among the first `k` exceeds `y[ihi]` -/
+def HiOK (y : List Rat) (k : Nat) (c : Scan) : Prop := ∀ j, j < k → y.getD j 0 ≤ y.getD c.ihi 0
+
+theorem scanStep_hi {y : List Rat} {k : Nat} {c : Scan} (h : HiOK y k c) : HiOK y (k + 1) (scanStep y c k) := by
+  unfold scanStep
+  dsimp only
+  by_cases c1 : y.getD k 0 > y.getD c.ihi 0
+  · rw [if_pos c1]
+    intro j hj
+    dsimp only
+    rcases Nat.lt_succ_iff_lt_or_eq.mp hj with hj' | rfl
+    · exact le_trans (h j hj') (le_of_lt c1)
+    · exact le_refl _
+  · rw [if_neg c1]
+    have key : ∀ c' : Scan, c'.ihi = c.ihi → HiOK y (k + 1) c' := by
+      intro c' e j hj
+      rw [e]
+      rcases Nat.lt_succ_iff_lt_or_eq.mp hj with hj' | rfl
+      · exact h j hj'
+      · exact not_lt.mp c1
+    by_cases c2 : (y.getD k 0 > y.getD c.inhi 0 ∧ k ≠ c.ihi)
+    · rw [if_pos c2]; exact key _ rfl
+    · rw [if_neg c2]; exact key _ rfl
+
+theorem scan_fold_hi {y : List Rat} {c0 : Scan} :
+    ∀ k, HiOK y k ((List.range k).foldl (scanStep y) c0)
+  | 0 => by intro j hj; omega
+  | k + 1 => by
+    rw [List.range_succ, List.foldl_append]
+    simp only [List.foldl_cons, List.foldl_nil]
+    exact scanStep_hi (scan_fold_hi k)
+
+theorem scan_hi (y : List Rat) : ∀ j, j < y.length → y.getD j 0 ≤ y.getD (scan y).ihi 0 := by
+  unfold scan
+  dsimp only
+  exact scan_fold_hi y.length
+
 /-! ### the shrink loop -/
 
 theorem shrinkAll_inv (ndim ilo : Nat) (plo : Pt) : ∀ (p : List Pt) (i : Nat) (ys : List Rat), ys = p.map f →
